@@ -247,3 +247,48 @@ Definition expected_reject_args : list string :=
    "groupbadpix=groupbadpix"]%string.
 Lemma gen_iter_reject_args : bs_iter_reject_args = expected_reject_args.
 Proof. reflexivity. Qed.
+
+(* ------------------------------------------------------------------ round 5: guards of iterfit, gap logic of value, uniq *)
+(* the early return "too few good points" fires for FEWER than nord good points -- not for exactly nord -- and sits in a branch
+   that only warns, un-sorts the mask and returns; the spline set is built from the good points in sorted order *)
+Definition expected_knots_from : string := "xdata[xsort[maskwork]]"%string.
+Lemma gen_iter_too_few sv maxiter lower upper gb k ds perm :
+  (forall n, bs_iter_too_few n k = (n <? k)%nat) /\
+  bs_iter_knots_from = expected_knots_from /\
+  iterfit_guarded_with sv maxiter lower upper gb k ds perm =
+  let sorted := apply_perm d0 perm ds in
+  let m0 := map (fun d => bs_iter_good (dw d)) sorted in
+  if bs_iter_too_few (ngood m0) k then GaveUp (unsort false perm m0)
+  else match iter_loop sv (S maxiter) gb k lower upper sorted m0 with
+       | None => NoModel
+       | Some (c, mw) => Fitted c (unsort false perm mw)
+       end.
+Proof. repeat split. Qed.
+
+(* the other guards: a fit status of -2 ends iterfit, rejection runs exactly after a successful fit (status 0; after -1 the
+   loop simply refits with the reduced breakpoint set), and the loop gives up (coeff = 0) with at most ONE good point left *)
+Lemma gen_iter_status e n anybk :
+  bs_iter_abort e = (e =? -2)%Z /\ bs_iter_reject_when e = (e =? 0)%Z /\
+  bs_iter_give_up n anybk = ((n <=? 1)%nat || negb anybk).
+Proof. repeat split. Qed.
+
+(* value(): consecutive good breakpoint positions a, b more than 2 apart mask the closed interval [bk[a], bk[b-1]] *)
+Lemma gen_value_gaps bk a b r :
+  gaps bk (a :: b :: r) =
+  if bs_value_gap_test a b then (nthQ bk a, nthQ bk (bs_value_gap_hi_index b)) :: gaps bk (b :: r) else gaps bk (b :: r).
+Proof. reflexivity. Qed.
+
+Lemma gen_value_gap_inside bk bmask k x :
+  point_mask bk bmask k x =
+  in_range_mask (select bmask bk) k x &&
+  forallb (fun g => negb (bs_value_gap_inside x (fst g) (snd g))) (gaps bk (good_positions bmask 0)).
+Proof. reflexivity. Qed.
+
+(* uniq(), as action() uses it, tells neighbours apart with exact inequality of the (integer) interval indices and compares each
+   item with its SUCCESSOR (roll by -1): position p ends a run iff idx[p] <> idx[p+1]; this is what first_pos/last_pos of
+   action_ranges compute (ActionProofs.action_ranges_spec) *)
+Lemma gen_uniq_differs a b : bs_uniq_differs (Z.of_nat a) (Z.of_nat b) = negb (a =? b)%nat /\ bs_uniq_shift = (-1)%Z.
+Proof.
+  split; [|reflexivity]. unfold bs_uniq_differs. f_equal.
+  destruct (a =? b)%nat eqn:E; [apply Nat.eqb_eq in E; apply Z.eqb_eq; lia | apply Nat.eqb_neq in E; apply Z.eqb_neq; lia].
+Qed.
